@@ -54,7 +54,9 @@ func (mc multiCore) With(fields []Field) Core {
 }
 
 func (mc multiCore) Level() Level {
-	minLvl := _maxLevel // mc is never empty
+	// InvalidLevel is what LevelOf reports for a core with no level enabled;
+	// it is above every valid level, so it is the neutral seed of the minimum.
+	minLvl := InvalidLevel
 	for i := range mc {
 		if lvl := LevelOf(mc[i]); lvl < minLvl {
 			minLvl = lvl
